@@ -194,6 +194,28 @@ impl RTree {
         }
     }
 
+    fn state_digest(&self, tok: &RTok, trailing_cr: bool) -> u128 {
+        let names = |v: &[usize]| -> Vec<String> { v.iter().map(|&n| format!("{:?}#{n}", self.dom.elem(n))).collect() };
+        let afe: Vec<String> = self
+            .afe
+            .iter()
+            .map(|a| match a {
+                Afe::Marker => "|".to_string(),
+                Afe::El(n, t) => format!("{n}:{}:{:?}", t.name, t.attrs),
+            })
+            .collect();
+        crate::common::digest(&(
+            format!("{:?}|{:?}|{:?}|{}|{}|{}|{:?}|{}", self.mode, self.orig_mode, self.template_modes, self.frameset_ok, self.foster, self.skip_lf, self.pending_table_chars, self.quirks),
+            self.head,
+            self.form,
+            names(&self.open),
+            afe,
+            tok.ctl_key(),
+            trailing_cr,
+            self.dom.render_doc(),
+        ))
+    }
+
     // ------------------------------------------------------------ helpers
     fn current(&self) -> usize {
         *self.open.last().expect("stack of open elements is empty")
@@ -1878,6 +1900,13 @@ fn no_switch(_: &str) -> Option<rtok::Switch> {
 
 /// Parse `input` completely with the reference tokenizer + tree builder.
 pub fn parse(cfg: &RCfg, input: &str) -> ROut {
+    parse_keyed(cfg, input).0
+}
+
+/// As `parse`, and also a digest of the complete reference state (tree-construction state, DOM, tokenizer
+/// control state) at the point where all of `input` has been consumed and end-of-file is not yet known:
+/// the reference half of the product-state key of the E2 searches.
+pub fn parse_keyed(cfg: &RCfg, input: &str) -> (ROut, u128) {
     let mut tree = RTree::new(cfg);
     let cdata = Rc::new(Cell::new(false));
     let mut start = S::Data;
@@ -1911,7 +1940,8 @@ pub fn parse(cfg: &RCfg, input: &str) -> ROut {
     let rc = rtok::Cfg { start, last_start_tag: None, cdata_allowed: cdata.clone(), switch: no_switch, _m: std::marker::PhantomData };
     let mut tok = RTok::new(rc);
     tok.input = rtok::normalize(s);
-    tok.eof = true;
+    tok.eof = false;
+    let mut key: Option<u128> = None;
     let mut seen = 0usize;
     // (fragment case: no start tag token has been emitted, so no end tag is "appropriate")
     let update_cdata = |tree: &RTree, cdata: &Rc<Cell<bool>>| {
@@ -1923,6 +1953,7 @@ pub fn parse(cfg: &RCfg, input: &str) -> ROut {
     };
     update_cdata(&tree, &cdata);
     while !tok.done {
+        tok.suspended = false;
         tok.step();
         while seen < tok.out.len() {
             let e = tok.out[seen].clone();
@@ -1940,6 +1971,11 @@ pub fn parse(cfg: &RCfg, input: &str) -> ROut {
             }
             update_cdata(&tree, &cdata);
         }
+        if tok.suspended && !tok.eof {
+            key = Some(tree.state_digest(&tok, s.ends_with('\r')));
+            tok.eof = true;
+        }
     }
-    ROut { dom: tree.dom, quirks: tree.quirks }
+    let key = key.unwrap_or_else(|| tree.state_digest(&tok, false));
+    (ROut { dom: tree.dom, quirks: tree.quirks }, key)
 }
